@@ -192,8 +192,12 @@ class CallMixin:
                             r = IntV(r.lin, frozenset(r.tags) | {'cached'})
                         self.modcache[ck] = r
                     return self.modcache[ck]
-                self.note_unknown(node, f'cached function {fv.fi.name} called with non-constant arguments')
-                return self.call_value(fv.memo, args, kwargs, node)
+                # symbolic arguments: executed; whether two calls share their result is not tracked, so a mutable result
+                # counts as possibly shared
+                r = self.call_value(fv.memo, args, kwargs, node)
+                if isinstance(r, (DictV, ListV, ObjV)):
+                    r.tags = frozenset(r.tags) | {'global', 'cached'}
+                return r
             return self.call_function(fv.fi, args, kwargs, self_obj=fv.self_obj, node=node, cls_obj=fv.cls_obj,
                                       closure=getattr(fv, 'closure', None), raw=bool(getattr(fv, 'raw', False)))
         if isinstance(fv, ClassV):
